@@ -678,6 +678,16 @@ pub fn up_poll(cx: &mut Context<'_>) -> UpRes {
                 w.pulled_ids_call.push(id);
                 // C09: never more than `limit` unfinished futures
                 let live = w.live.len();
+                // C16: pulled but not yet yielded, counted at the moment of the pull (an item the
+                // current call is about to hand out has not been yielded yet)
+                let outstanding = w.up.pulled_futs - w.adapter_yielded;
+                if w.ordered_adapter && w.limit > 0 && outstanding > w.limit as u64 {
+                    let d = format!(
+                        "{} items pulled but not yielded at the moment of a pull, limit is {}",
+                        outstanding, w.limit
+                    );
+                    w.violate("C16", "backlog-exceeds-limit", d);
+                }
                 if w.limit > 0 && live > w.limit {
                     let d = format!(
                         "{} unfinished futures alive after a pull, limit is {}",
